@@ -166,6 +166,7 @@ def write_evidence(mod, pid, tier, seed, res, wall, n_viol, known_hit):
             "exhaustive": bool(m["exhaustive"]),
             "max_depth": m["max_depth"],
             "violating_cases": m["n_viol"],
+            "stopped_early_after_violation": bool(m.get("stopped_early")),
         }
     ev = {
         "property_id": pid,
